@@ -713,9 +713,24 @@ class Translator:
                 continue
             if 'anyInit' in c and c['anyInit'].get('kind') == 'FieldDecl':
                 f = c['anyInit']
+                init = c['inner'][0]
+                if self.strip(init).get('kind') == 'CXXDefaultInitExpr':
+                    # the member's in-class initialiser: taken from the field declaration; if it cannot be translated the field is left
+                    # unconstrained (an over-approximation, stated in the evidence)
+                    try:
+                        ft = self.ctype(f['type']['qualType'])
+                        rd = self.record_decl(self.cur_class)
+                        fd = next((x for x in (rd or {}).get('inner', []) if x.get('kind') == 'FieldDecl' and x.get('name') == f['name']), None)
+                        exprs = [x for x in (fd or {}).get('inner', []) if not x.get('kind', '').endswith('Comment')]
+                        if not exprs:
+                            raise Unsupported('no in-class initialiser found')
+                        self.add_field(self.cur_class, f['name'], ft)
+                        out += '  ' + self.init_member('self->%s' % f['name'], ft, exprs[0]).replace('\n', '\n  ').rstrip(' ')
+                    except Unsupported as e:
+                        self.dropped.add('in-class initialiser of %s::%s in constructor %s not translated (field left unconstrained): %s' % (self.cur_class, f['name'], self.cur_fn, e))
+                    continue
                 ft = self.ctype(f['type']['qualType'])
                 self.add_field(self.cur_class, f['name'], ft)
-                init = c['inner'][0]
                 if self.strip(init).get('kind') == 'CXXConstructExpr' and not self.strip(init).get('inner') and \
                         self.lookup_binding(['c:%s()' % self.objtype(self.strip(init))]) is None:
                     continue
@@ -2161,6 +2176,8 @@ class Translator:
             if spec.get('of'):
                 # a second contract for the same function (a specialised precondition): translated again under another name
                 cn = spec['cname']
+                if spec.get('ptypes'):
+                    self.fn_cname[d['id']] = cn       # an overload selected by its parameter types: calls to it go to this contract
             else:
                 cn = spec.get('cname') or self.cname_for(d, qual)
                 self.fn_cname[d['id']] = cn
